@@ -68,6 +68,17 @@ def cases(tier, seed):
                                            "dense_prob": 0.9, "pool": None, "crowd_prob": 0.35}):
         spec["kind"] = "run"
         out.append(spec)
+    # debump stress: long side chains hemmed in by many obstacle waters => multi-round debumping where some rounds
+    # improve and later ones do not
+    nstress = 48 if tier == "quick" else 2500
+    rng = random.Random(seed * 77 + 5)
+    for i in range(nstress):
+        ff = common.FFS[i % 6]
+        out.append({"kind": "run", "w": "synth", "seed": seed * 900001 + i, "ff": ff, "opts": opts(rng, {"ff": ff}),
+                    "p": {"crowd_prob": 0.6, "crowd_heavy_prob": 1.0, "minlen": 5, "maxlen": 9, "na": False, "waters": [0],
+                          "hydrogens": ["none", "none", "some"], "variant_prob": 0.05,
+                          "pool": ["ARG", "LYS", "GLU", "GLN", "MET", "ILE", "LEU", "TRP", "PHE", "TYR", "HIS", "ASN",
+                                   "ASP", "THR", "VAL", "SER"]}})
     nd = 16 if tier == "quick" else 600
     out += [{"kind": "direct", "seed": seed * 1000 + i} for i in range(nd)]
     return out
